@@ -25,6 +25,7 @@ BUDGET = {
     "quick": {"examples": 0, "shards": 8, "case_timeout": 60, "wall_budget": 280},
     "thorough": {"examples": 1600, "shards": 16, "case_timeout": 60, "wall_budget": 1200},
 }
+FUZZ = {"thorough": dict(runs=20000, procs=8, wall_s=600)}
 EXHAUSTIVE = True
 TOLERANCES = {"defaults": "bit-identical"}
 MIN_NONTRIVIAL = 1000
